@@ -324,6 +324,13 @@ def world(ctx, rng_seed, m, ps, origin, kshape, shared=None):
         ob.inv("geometry.pixel_coordinates_2d_from", "pixel_coordinates", np.array([mask.geometry.pixel_coordinates_2d_from(scaled_coordinates_2d=tuple(p)) for p in pts]))
         gi = aa.Grid2D(values=pts.copy(), mask=aa.Mask2D.all_false(shape_native=(H, W), pixel_scales=ps, origin=tuple(origin)))
         ob.inv("geometry.grid_pixel_indexes_2d_from", "grid_pixel_indexes", mask.geometry.grid_pixel_indexes_2d_from(grid_scaled_2d=gi))
+        # the same points held in a container that was built without an origin of its own (Grid2D.no_mask(values, pixel_scales)): the
+        # indexes are those of the frame being indexed, whatever carries the points
+        g_plain = aa.Grid2D.no_mask(values=pts.reshape(H, W, 2).copy(), pixel_scales=ps)
+        ob.inv("geometry.grid_pixel_indexes_2d_from", "grid_pixel_indexes(points in a container at origin 0)",
+               mask.geometry.grid_pixel_indexes_2d_from(grid_scaled_2d=g_plain))
+        ob.inv("geometry.grid_pixel_indexes_2d_from", "grid_pixel_centres(points in a container at origin 0)",
+               mask.geometry.grid_pixel_centres_2d_from(grid_scaled_2d=g_plain))
         ob.inv("geometry.grid_pixel_indexes_2d_from", "grid_pixel_centres", mask.geometry.grid_pixel_centres_2d_from(grid_scaled_2d=gi))
         ob.inv("geometry.grid_pixel_indexes_2d_from", "grid_pixels(continuous)", np.round(_np(mask.geometry.grid_pixels_2d_from(grid_scaled_2d=gi)).astype(float), 7))
         sc = _np(mask.geometry.scaled_coordinates_2d_from(pixel_coordinates_2d=(int(r.integers(H)), int(r.integers(W)))))
